@@ -14,14 +14,26 @@ def parseEnt (s : String) : Option Ent :=
   | _ => none
 
 def deleteOp : List String → String
-  | ["delete", ioerr, dry, names, tree] =>
+  | ["filter", rules, tree] =>
+    let rs := if rules == "-" then some [] else (rules.splitOn ",").mapM parseHex
+    let es := if tree == "-" then some [] else (tree.splitOn ",").mapM parseEnt
+    match rs, es with
+    | some rs, some es =>
+      match Filter.parseRules rs with
+      | none => "err:unsupported"
+      | some rules =>
+        let kept := Filter.listWalk (fun p d => Filter.excluded rules (joined p) d) es
+        "ok " ++ (if kept.isEmpty then "-" else ",".intercalate (kept.map fun p => toHex (joined p)))
+    | _, _ => "bad-op"
+  | ["delete", ioerr, dry, names, tree, rules] =>
     let ns := if names == "-" then some [] else (names.splitOn ",").mapM parseHex
     let es := if tree == "-" then some [] else (tree.splitOn ",").mapM parseEnt
-    match ioerr.toNat?, ns, es with
-    | some io, some ns, some es =>
-      let (removed, aborted) := deleteFilesV io (dry == "1") ns es
+    let rs := if rules == "-" then some [] else (rules.splitOn ",").mapM parseHex
+    match ioerr.toNat?, ns, es, rs.bind Filter.parseRules with
+    | some io, some ns, some es, some rls =>
+      let (removed, aborted) := deleteFilesV io (dry == "1") ns rls es
       (if aborted then "err " else "ok ") ++ (if removed.isEmpty then "-" else ",".intercalate (removed.map fun p => toHex (joined p)))
-    | _, _, _ => "bad-op"
+    | _, _, _, _ => "bad-op"
   | ["utf8", b] => match parseHex b with
     | some bs => "ok " ++ toString (Utf8.valid bs)
     | none => "bad-op"
